@@ -28,6 +28,10 @@ def gen(r, i):
         return spec, None
     nroots = r.choice([1, 2, 2, 3, 4])
     roots = ["r%d" % k for k in range(nroots)]
+    if nroots >= 2 and r.random() < 0.3:
+        # sibling roots whose names are string prefixes of each other (photos, photos-backup): a path belongs to the
+        # root that is its path prefix, not its string prefix
+        roots = ["r1", "r10", "r10-b", "r10-bak"][:nroots]
     entries = [{"t": "d", "p": rt} for rt in roots] + [{"t": "d", "p": rt + "/sub"} for rt in roots]
     entries.append({"t": "d", "p": "y"})
     mt = 0
